@@ -11,7 +11,7 @@ values) and result equal RotoSem.Eval.
 import semlib
 
 PID = "C08"
-ALL = ["ints", "bool", "float", "str", "char", "rec", "enum", "opt", "list", "loops", "calls", "recfn", "ret", "fstr", "copymut", "generic", "filtermap", "hostopt", "shadow", "gconst", "kconst", "mods", "tr", "exprstmt", "hmeth"]
+ALL = ["ints", "bool", "float", "str", "char", "rec", "enum", "opt", "list", "loops", "calls", "recfn", "ret", "fstr", "copymut", "generic", "filtermap", "hostopt", "shadow", "gconst", "kconst", "mods", "tr", "exprstmt", "hmeth", "anonrec"]
 
 
 def run(tier):
